@@ -190,6 +190,49 @@ class Model:
         for c in self.classes.values():
             c.bases = [b for b in (self.resolve(strip_subscript(be), c.module) for be in c.node.bases) if b]
         self._mro_cache: t.Dict[str, t.List[str]] = {}
+        self.expanded: t.Dict[str, int] = {}      # function -> number of classifier comparisons rewritten (see expand.py)
+        self._expand_classifiers()
+
+    def _expand_classifiers(self) -> None:
+        from .expand import expand_function
+        for f in list(self.functions.values()):
+            fn = f.node
+            if not isinstance(fn, ast.FunctionDef):
+                continue
+
+            def resolve(call: ast.Call, f: FuncInfo = f) -> t.Optional[t.Tuple[ast.FunctionDef, bool]]:
+                fx = call.func
+                g: t.Optional[FuncInfo] = None
+                via_instance = False
+                if isinstance(fx, ast.Attribute) and isinstance(fx.value, ast.Name):
+                    if f.cls is not None and f.params and fx.value.id == f.params[0]:
+                        g = self.find_method(f.cls.qualname, fx.attr)
+                        via_instance = True
+                    else:
+                        q = self.resolve(fx.value, f.module, f)
+                        if q in self.classes:
+                            g = self.find_method(q, fx.attr)
+                elif isinstance(fx, ast.Name):
+                    q = self.resolve(fx, f.module, f)
+                    g = self.functions.get(q or '')
+                    if g is not None and g.cls is not None:
+                        g = None
+                if g is None or g is f or not isinstance(g.node, ast.FunctionDef):
+                    return None
+                static = any(isinstance(d, ast.Name) and d.id == 'staticmethod' for d in g.node.decorator_list)
+                has_recv = g.cls is not None and not static and via_instance
+                if g.cls is not None and not static and not via_instance:
+                    return None
+                return g.node, has_recv
+            try:
+                n = expand_function(fn, resolve)
+            except RecursionError:
+                n = 0
+            if n:
+                self.expanded[f.qualname] = n
+                for p_ in ast.walk(fn):
+                    for ch in ast.iter_child_nodes(p_):
+                        ch._parent = p_  # type: ignore[attr-defined]
 
     # ------------------------------------------------------------------ indexing
 
